@@ -7,7 +7,7 @@
 (* printed as <<"MISMATCH", json>> and classified against the open known   *)
 (* findings.  TraceAccepted requires that every line was consumed.         *)
 (***************************************************************************)
-EXTENDS Order, KnownFindings, Range, ShorthandSem, VersSyntax, CliSem, Json, SequencesExt, FiniteSetsExt, Dpkg, MavenCV, SemVer, Pep440, GemVersion, Apk
+EXTENDS Order, KnownFindings, Range, ShorthandSem, VersSyntax, CliSem, TotalitySem, Json, SequencesExt, FiniteSetsExt, Dpkg, MavenCV, SemVer, Pep440, GemVersion, Apk
 
 CONSTANTS TraceFile,     \* path of the NDJSON trace
           Prop,          \* property id being judged, e.g. "C01"
@@ -288,8 +288,27 @@ SortC07(ev) ==
                                /\ clsseq(q) # clsseq(1)}}
   \cup {[prop |-> "C07", eco |-> ev.eco, why |-> "panic", input |-> <<ev.panics[i]>>, output |-> <<>>, known |-> ""] : i \in 1..Len(ev.panics)}
 
+(* C06: every entry point returns one of the two legal outcomes (code 0 = value, nil error;   *)
+(* 1 = nil value, error); vers.Contains never returns (true, error); observers of accepted     *)
+(* values do not panic; nothing hangs and long inputs stay within the quadratic budget.        *)
+TotalC06(ev) ==
+  LET bad(f, name) == {[prop |-> "C06", why |-> name \o ":" \o k \o " outcome " \o ToString(f[k]), input |-> ev.show, n |-> ev.n,
+                        tag |-> ev.tag, known |-> ""] : k \in {k \in DOMAIN f : f[k] \notin {0, 1}}} IN
+  bad(ev.v, "NewVersion") \cup bad(ev.r, "NewVersionRange") \cup bad(ev.versr, "vers.Contains(range)") \cup bad(ev.versp, "vers.Contains(probe)")
+  \cup (IF ev.versw \notin {0, 1} THEN {[prop |-> "C06", why |-> "vers.Contains(whole) outcome " \o ToString(ev.versw), input |-> ev.show, n |-> ev.n, tag |-> ev.tag, known |-> ""]} ELSE {})
+  \cup (IF ev.obspanics > 0 THEN {[prop |-> "C06", why |-> "observer panicked: " \o ev.obsmsg, input |-> ev.show, n |-> ev.n, tag |-> ev.tag, known |-> ""]} ELSE {})
+  \cup (IF ev.maxms > BudgetMs(ev.n) THEN {[prop |-> "C06", why |-> "over the time budget: " \o ev.slow \o " took " \o ToString(ev.maxms) \o " ms", input |-> ev.show,
+                                            n |-> ev.n, tag |-> ev.tag, known |-> ""]} ELSE {})
+(* C06 for the CLI: exit status 0 or 1, something on stdout, no hang *)
+CliC06(ev) ==
+  IF ev.hang \/ ev.exit \notin {0, 1} \/ ev.stdout = <<>>
+  THEN {[prop |-> "C06", why |-> "CLI: exit " \o ToString(ev.exit) \o (IF ev.hang THEN " (hang)" ELSE ""), input |-> ev.show, n |-> 0, tag |-> ev.tag, known |-> ""]}
+  ELSE {}
+
 Judge(ev) ==
   CASE ev.k = "matrix" /\ Prop = "C01" -> MatrixC01(ev)
+    [] ev.k = "total" /\ Prop = "C06" -> TotalC06(ev)
+    [] ev.k = "cli" /\ Prop = "C06" -> CliC06(ev) \cup CliC15(ev)
     [] ev.k = "sortset" /\ Prop = "C07" -> SortC07(ev)
     [] ev.k = "cli" /\ Prop \in {"C15", "C07"} -> CliC15(ev)
     [] ev.k = "roundtrip" /\ Prop = "C18" -> RtC18(ev)
